@@ -1590,6 +1590,20 @@ class Evaluator:
             return s.apply(s.getattr(recv, attr, mod, depth), args, kw, mod, depth, node)
         if isinstance(recv, Ref) and recv.kind == 'npfun' and attr == 'reduce' and len(args) == 1 and recv.name in ('add', 'multiply'):
             if recv.name == 'add': return s.npcall('sum', args, {k_: v_ for k_, v_ in kw.items()})         # np.add.reduce(x) is np.sum(x)
+        if isinstance(recv, Opq) and len(recv.k) == 2 and recv.k[0] == 'globals' and isinstance(recv.k[1], Ref) and attr in ('items', 'keys', 'values', 'get') and not kw:
+            # the module namespace as a dictionary: imported names, then the top-level definitions (in order of appearance)
+            gm_ = recv.k[1].mod
+            names_ = list(dict.fromkeys(list(gm_.imports) + list(gm_.defs)))
+            if attr == 'get' and args and isinstance(args[0], str):
+                return s.lookup(args[0], {'__parent__': None}, gm_) if args[0] in names_ else (args[1] if len(args) > 1 else None)
+            if not args:
+                vals_ = {}
+                for n_ in names_:
+                    try: vals_[n_] = s.lookup(n_, {'__parent__': None}, gm_)
+                    except Exception: vals_[n_] = Opq('?', 'global ' + n_)
+                if attr == 'keys': return list(vals_)
+                if attr == 'values': return list(vals_.values())
+                return [(n_, v_) for n_, v_ in vals_.items()]
         if attr == '__getitem__' and len(args) == 1 and not kw: return s.getitem(recv, args[0])                   # the method spelling of x[k]
         if attr == '__contains__' and len(args) == 1 and not kw: return s.compare(ast.In(), args[0], recv)
         if attr == 'conjugate' and not args: return s.npcall('conj', [recv], {})
@@ -1844,8 +1858,18 @@ class Evaluator:
             while isinstance(a, Opq) and a.k and a.k[0] in ('list', 'tuple', 'keys', 'iter') and len(a.k) == 2 and not isinstance(a.k[1], Comp): a = a.k[1]     # a copy has the length of the original
             if isinstance(a, (list, tuple, dict, str)): return Poly.const(len(a))
             return Poly.atom(('len', tkey(a)))
+        if name == 'getattr' and len(args) == 3 and isinstance(args[1], str) and isinstance(a, Ref) and a.kind == 'module':
+            r_ = s.prog.resolve(a.mod, args[1])            # getattr(module, name, default): the module-level name if there is one
+            if r_ is None or r_[0] == 'unresolved':
+                return args[2] if f'{a.mod.name}.{args[1]}' not in s.prog.modules else Ref('module', s.prog.modules[f'{a.mod.name}.{args[1]}'], None, args[1])
+            return s.getattr(a, args[1], mod, depth)
         if name == 'getattr' and len(args) >= 2 and isinstance(args[1], str):
             return s.getattr(a, args[1], mod, depth)
+        if name == 'callable' and len(args) == 1 and not kw:
+            if isinstance(a, Closure) or (isinstance(a, Ref) and a.kind in ('func', 'class', 'builtin', 'npfun')): return True
+            if isinstance(a, Opq) and a.k and a.k[0] in ('partial', 'opget', 'dictmethod', 'listmethod', 'strmethod'): return True
+            if a is None or isinstance(a, (str, bool, int, F, list, tuple, dict)) or (isinstance(a, Ref) and a.kind == 'module') or (isinstance(a, Poly) and a.is_const()): return False
+            if isinstance(a, Rec) and isinstance(a.clsref, tuple): return bool(s.prog.find_member(a.clsref[0], a.clsref[1], '__call__'))
         if name in ('list', 'tuple') and len(args) == 1 and isinstance(a, Poly) and not a.is_const():
             # list(c * np.arange(n)): an arithmetic expression in ONE range vector is the comprehension of its element expression over that range
             rng_ = [at_ for at_ in a.atoms() if isinstance(at_, tuple) and at_[:1] == ('arange',)]
